@@ -123,7 +123,10 @@ C03_Frame ==
                            o2.kind = o.kind /\ o2.h = o.h /\ o2.pat = o.pat /\ o2.params = o.params]_vars
 
 \* ------------------------------------------------------------------ generation
-CaseOf == [fam |-> "router", cfg |-> rt.cfg @@ [lock |-> FALSE], ops |-> hist, battery |-> Battery] @@ CaseExtra
+\* skey: the abstract table reached, used only to send histories that end in the same table to the same
+\* validation shard (so that identical observations are validated once)
+CaseOf == [fam |-> "router", cfg |-> rt.cfg @@ [lock |-> FALSE], ops |-> hist, battery |-> Battery,
+           skey |-> ToString([p \in Live(rt) |-> MethodsOf(rt, p)])] @@ CaseExtra
 Emit == (Len(hist) > nbase /\ (EmitAll \/ Len(hist) - nbase = Depth)) => PrintT("CASE " \o ToJson(CaseOf))
 PoolLine == PrintT("POOL " \o ToJson([pool |-> [probes |-> Probes, methods |-> ProbeMethods]]))
 =============================================================================
